@@ -125,7 +125,8 @@ FamTX ==
 CONSTANT FamilyName
 Fam == CASE FamilyName = "A" -> FamA [] FamilyName = "P" -> FamP [] FamilyName = "W" -> FamW
                [] FamilyName = "V" -> FamV [] FamilyName = "B" -> FamB [] FamilyName = "BX" -> FamBX [] FamilyName = "A3" -> FamA3 [] FamilyName = "S" -> FamS [] FamilyName = "D" -> FamD [] FamilyName = "TX" -> FamTX
-MCConfigs == {c \in Fam : FeasibleCfg(c)}
+WithEstT(c) == [c EXCEPT !.obs = [o \in DOMAIN c.obs |-> c.obs[o] @@ [estT |-> c.obs[o].est * c.K]]]
+MCConfigs == {WithEstT(c) : c \in {c \in Fam : FeasibleCfg(c)}}
 
 (* ------------------------------ properties -------------------------------- *)
 I_C01_exec == Inv_C01_exec(S)
